@@ -7,7 +7,10 @@ from common import (Rng, assumptions, coq_bytes, coq_eval, coq_make, harness_bui
                     regen, run_harness, seed, write_evidence, write_replay, TRUSTED_BASE, VERIF)
 
 PROP = "C11"
-THEOREMS = ["C11_decode_no_panic"]
+THEOREMS = ["C11_decode_no_panic", "C11_decode_total", "C11_decode_message_or_error", "C11_schema_ok", "C11_one_line",
+            "C11_roundtrip", "C11_value_roundtrip", "C11_K11a_empty_string_refuted", "C11_K11b_nul_refuted",
+            "C11_K11c_leading_escape_refuted", "C11_K11d_lone_backslash_refuted", "C11_K11e_trailing_backslash_refuted",
+            "C11_K11f_invalid_message_refuted"]
 PRELUDE = "From NW Require Import Base.Bytes Model.SchemaTypes Gen.Schema Model.Codec Model.CodecWf Conf.CodecConf.\n"
 
 CLASS_NAMES = {1: "K11a", 2: "K11b", 3: "K11c", 4: "K11d", 5: "K11e", 6: "K11f"}
